@@ -33,6 +33,10 @@ WITH THE SOFTWARE OR THE USE OR OTHER DEALINGS IN THE SOFTWARE.
 #include <numeric>
 #include <optional>
 
+#ifdef OPENSMT_VERIF_TRACE
+#include <common/VerifTrace.h>
+#endif
+
 namespace opensmt {
 
 namespace {
@@ -116,6 +120,12 @@ TPropRes CoreSMTSolver::handleNewSplitClauses(SplitClauses & splitClauses) {
             if (!this->logsResolutionProof()) {
                 if (decisionLevel() == 0) {
                     // MB: do not allocate, we can directly enqueue the implied literal
+#ifdef OPENSMT_VERIF_TRACE
+                    if (veriftrace::on()) {
+                        veriftrace::emit("{\"e\":\"cl\",\"kind\":\"derived\",\"site\":\"splitUnit\",\"lits\":[" +
+                                         std::to_string(veriftrace::litToInt(splitClause[notFalsifiedIndex.value()])) + "]}");
+                    }
+#endif
                     uncheckedEnqueue(splitClause[notFalsifiedIndex.value()], CRef_Undef);
                     res = TPropRes::Propagate;
                     continue;
@@ -182,6 +192,14 @@ CoreSMTSolver::handleSat()
             // Maybe do something someday?
         }
         CRef deducedReason = CRef_Fake;
+#ifdef OPENSMT_VERIF_TRACE
+        if (decisionLevel() == 0 and veriftrace::on()) {
+            // justification of a root-level theory fact: the explanation the theory gives for it
+            vec<Lit> verifReason;
+            theory_handler.getReason(l, verifReason);
+            veriftrace::emit("{\"e\":\"rootded\",\"lit\":" + std::to_string(veriftrace::litToInt(l)) + ",\"reason\":" + veriftrace::litsToJson(verifReason) + "}");
+        }
+#endif
         if (decisionLevel() == 0 and logsResolutionProof()) {
             vec<Lit> reasonLits;
             theory_handler.getReason(l, reasonLits);
@@ -274,6 +292,11 @@ CoreSMTSolver::handleUnsat()
         resolutionProof->newTheoryClause(confl);
     }
     analyze(confl, learnt_clause, backtrack_level);
+#ifdef OPENSMT_VERIF_TRACE
+    if (veriftrace::on()) {
+        veriftrace::emit("{\"e\":\"cl\",\"kind\":\"learnt\",\"site\":\"handleUnsat\",\"lits\":" + veriftrace::litsToJson(learnt_clause) + "}");
+    }
+#endif
 
     if (!logsResolutionProof()) {
         // Get rid of the temporary lemma
